@@ -5,6 +5,7 @@ import (
 	"fmt"
 	"net/url"
 	"strconv"
+	"strings"
 
 	"context"
 
@@ -252,12 +253,27 @@ func (sel *Selection) Constrain(params string) (*Selection, error) {
 	if err != nil {
 		return nil, err
 	}
+	params2, err := parseQuery(dummy.RawQuery)
+	if err != nil {
+		return nil, err
+	}
 	copy := *sel
-	if err = BuildConstraints(&copy, dummy.Query()); err != nil {
+	if err = BuildConstraints(&copy, params2); err != nil {
 		return nil, err
 	}
 	copy.Context = copy.Constraints.ContextConstraint(sel)
 	return &copy, nil
+}
+
+// parseQuery decodes url parameters.  A ';' separates the paths of a fields expression
+// (RFC 8040 sec 4.8.3), it does not separate parameters, and a parameter that cannot be
+// decoded is an error, not a parameter to leave out.
+func parseQuery(rawQuery string) (url.Values, error) {
+	params, err := url.ParseQuery(strings.ReplaceAll(rawQuery, ";", "%3B"))
+	if err != nil {
+		return nil, fmt.Errorf("%w. %s", fc.BadRequestError, err)
+	}
+	return params, nil
 }
 
 var errMaxDepthZeroNotAllowed = errors.New("depth zero is not allowed")
